@@ -31,6 +31,24 @@ whitespace context of every `Match.parse` call of that run is recorded (a record
   the rule modifiers as written are sent to `Peg.ruleMods` (mirror of `visit_rule_param` / `visit_rule_params`,
   `Peg/WsParam.lean`): skipws / ws of the compiled rule node must equal the model's.
 
+Set-up beyond one grammar string (added after the seeded changes C22-5 / C22-6):
+
+* the grammar may be spread over a main file and up to two imported files (packages, an import of an import),
+  loaded with `metamodel_from_file`; every file has a Comment rule of its own or none (regex, alias `Comment: X;`,
+  choice of two rules; different files use different comment syntaxes).  "The grammar's Comment rule" is decided
+  from the documented search order (current file first, then the imported files in the order of import); text
+  matched only by another file's Comment rule is inserted too and must not be skipped (sentence 2);
+* a case lists the meta-models created in the same process before (`history`) and after (`later`) the one under
+  test — the same grammar under another configuration or an unrelated one, with memoization / skipws / ws /
+  ignore_case / autokwd options; `reset_process_state` puts the module-level state of textX / Arpeggio back before
+  every case, so a case (and its replay) sees exactly the history it lists;
+* `add_clash`: two alternatives with different whitespace modes (noskipws / ws= / inherited) that reach one
+  non-terminal sub-rule at the same position — whatever a parser keeps per position is filled under one mode and
+  consulted under the other;
+* correspondence: `Peg.commentOwner` (lookup of `Comment` through the namespaces, `Peg/Setup.lean`) vs the file
+  whose Comment rule *is* the parser's comments model; `Peg.parserCfgAfter` (configuration of the parser after a
+  history) vs skipws / ws / memoization of the real parser.
+
 Known finding (Arpeggio, dependency): `comment_positions` is keyed by position only.  Classifier: the
 failure disappears when the real parser is re-run with the cache key extended by (skipws, ws).
 """
@@ -753,14 +771,20 @@ class Prop(Check):
     THOROUGH_CASES = 6000
     CASE_TIMEOUT = 30
     RULE = ("generated grammars (common/abstract/match rules, all operators, separators, eolterm, predicates, suppression, "
-            "noskipws/skipws/ws= rule modifiers, Comment rule in ~45%; ws= sets: random subsets of blank/tab/CR/LF (+ rarely "
+            "noskipws/skipws/ws= rule modifiers, Comment rule in ~60%; 22%: two alternatives with different whitespace modes "
+            "sharing a non-terminal sub-rule; 30%: rules spread over a main file + 1-2 imported files (packages, import of an "
+            "import, import order), each file with its own Comment rule (regex / alias / choice of two; distinct syntaxes) or "
+            "none, 12% of the single grammars loaded from a file; 25% (75% with a mode clash): history of 1-2 meta-models "
+            "created before in the same process (same grammar or another one; memoization, skipws, ws, ignore_case, autokwd "
+            "options), 10%: a meta-model created afterwards; process state reset before every case; ws= sets: random subsets of blank/tab/CR/LF (+ rarely "
             "an unusual character, the empty set), written with escape sequences / literally / mixed, any order, repeated "
             "characters, single or double quotes, before or after the skipws flag) x metamodel ws/skipws options (fixed list "
             "+ random sets) x 4 texts (1-2 laid out mode-aware: separators from the set in force at each token; 1-2 with "
             "blank / random layout; 1 mutated); for the first 2 accepted texts: alphabet sweep (every character of every "
             "non-default set in force inserted at a site of that mode, 2 standard whitespace characters outside it, 1 in "
             "front of a noskipws terminal) + up to 7 variants: whitespace of the documented active set and "
-            "Comment text inserted at gap-extension sites (gap start / end / interior, input start / end), whitespace "
+            "Comment text inserted at gap-extension sites (gap start / end / interior, input start / end), text matched only by "
+            "the Comment rule of another file of the grammar (must not be skipped), whitespace "
             "outside the active set, and insertions at glued boundaries (mirror only); non-trivial = at least one "
             "in-hypothesis gap-extension variant of an accepted text was loaded and compared")
     MODELLED = ("hand-modelled: Arpeggio's interpreter incl. whitespace skipping, _parse_comments, comment_positions cache, "
@@ -769,14 +793,24 @@ class Prop(Check):
                 "the theorem's side conditions evaluated in Lean vs in the harness; token matching (str compare, re.match) "
                 "is an input table; textx/lang.py visit_rule_param / visit_rule_params (skipws / noskipws / ws= -> mode of the "
                 "rule) hand-modelled in Peg/WsParam.lean, tie X: modifiers as written -> Peg.ruleMods vs skipws / ws of the "
-                "compiled rule node, every rule with modifiers; the rest of lang.py (Comment wiring, promotion / wrapping) is "
-                "exercised through the compiled parser model and the documented-mode oracle, not modelled")
+                "compiled rule node, every rule with modifiers; Comment wiring (visit_textx_model + TextXMetaModel.__getitem__: current "
+                "file, base types, imported files in import order) and the parser options taken from the meta-model across a "
+                "history (language_from_str, textX_parsers cache) hand-modelled in Peg/Setup.lean, tie X: grammar files as "
+                "written -> Peg.commentOwner vs the file whose Comment rule is the parser's comments model, configurations of "
+                "the history -> Peg.parserCfgAfter vs skipws / ws / memoization of the parser, every case; the rest of lang.py "
+                "(promotion / wrapping) is exercised through the compiled parser model and the documented-mode oracle, not modelled")
     ASSUMPTIONS = [
         "token tables: the mirror takes re.match / string comparison results as input (LexicalGrammar = tokCompatB on them)",
         "C22_partial_ws covers memoization off and parser models all of whose modes skip the inserted characters; "
         "comment-text insertion (C22_partial_comment) is checked by the harness only",
         "documented mode of a terminal = metamodel skipws/ws overridden by the modifiers of the rules on its parse-tree "
         "path; eolterm's removal of end-of-line characters is not reconstructed (sentence-2 oracle allows them)",
+        "the grammar's Comment rule = the rule found by the documented search order (current file, then imported files in "
+        "the order of import; files imported by an imported file only are not searched); in grammar files a carriage "
+        "return of a ws value is written as \\r (text-mode reading translates a literal one)",
+        "histories: debug stays off (it writes dot files); the meta-model under test is never created with "
+        "memoization=True (Arpeggio's memo tables ignore the whitespace mode: C19's known finding "
+        "C19-memo-key-ignores-ws-context)",
         "documented set of ws='...' = the characters between the quotes with \\n \\r \\t decoded (own decoder); "
         "C22_ws_param_denotes assumes no literal backslash other than in these three escape sequences",
     ]
